@@ -31,7 +31,11 @@ RECURSIVE MulR(_,_,_,_,_)
 MulR(a, b, k, c, acc) == IF k > Len(a) + Len(b) THEN acc
                          ELSE LET x == ColR(a, b, k, (IF k - Len(b) + 1 > 1 THEN k - Len(b) + 1 ELSE 1), 0) + c
                               IN MulR(a, b, k+1, x \div B, Append(acc, x % B))
-Mul(a, b) == IF Len(a) = 0 \/ Len(b) = 0 THEN <<>> ELSE Norm(MulR(a, b, 1, 0, <<>>))
+MulPure(a, b) == IF Len(a) = 0 \/ Len(b) = 0 THEN <<>> ELSE Norm(MulR(a, b, 1, 0, <<>>))
+\* Mul is the one operator with an optional TLC module override (BigNat.java: java.math.BigInteger); MulPure above
+\* is its definition, and every check that relies on the override first runs BigNatCheck (override = definition
+\* on boundary and random operands of that run).
+Mul(a, b) == MulPure(a, b)
 \* bits
 Pow2(n) == 2^n
 BitAt(a, i) == (L(a, (i \div 8) + 1) \div Pow2(i % 8)) % 2       \* i = 0 is the least significant bit
